@@ -91,6 +91,18 @@ class _EvalNamespace(_ChainMapPretendDict):
         """Delete from own dict, not from maps."""
         dict.__delitem__(self, key)
 
+    def pop(self, key, *args):
+        """Pop from own dict, not from maps."""
+        return dict.pop(self, key, *args)
+
+    def popitem(self):
+        """Pop an item from own dict, not from maps."""
+        return dict.popitem(self)
+
+    def clear(self):
+        """Clear own dict, not maps."""
+        dict.clear(self)
+
 
 class ImportVisitor(ast.NodeVisitor):
     """Parse python import and import from syntax.
